@@ -145,7 +145,7 @@ func (d *driver) behaviour(steps int, r int) {
 				myB = append(myB, b)
 			}
 		}
-		w := []int{10, 5, 8, 3, 14, 4, 5, 8, 8, 3, 2, 3, 1, 12, 4, 3, 5}
+		w := []int{10, 5, 8, 3, 14, 4, 5, 8, 8, 3, 2, 3, 2, 12, 4, 3, 5}
 		if len(myL) == 0 {
 			w[1], w[2], w[3], w[4] = 0, 0, 0, 0
 		}
@@ -242,9 +242,14 @@ func (d *driver) behaviour(steps int, r int) {
 			d.do("RepayWithdraw", M{"u": u, "b": int64(b.ID)})
 		case 11: // interest / reward calculation message
 			d.do("CalcInterest", M{"u": u})
-		case 12: // FundReserve
+		case 12: // FundReserve / FundModuleAccounts
 			a := f.Assets[rng.Intn(4)]
-			d.do("FundReserve", M{"u": u, "asset": int64(a.ID), "da": int64(a.ID), "amt": pos(d.amount() / 10)})
+			if rng.Intn(2) == 0 {
+				pa := poolAssets[rng.Intn(len(poolAssets))]
+				d.do("FundMod", M{"u": u, "pool": int64(pa[0]), "asset": int64(pa[1]), "da": int64(pa[1]), "amt": pos(d.amount() / 10)})
+			} else {
+				d.do("FundReserve", M{"u": u, "asset": int64(a.ID), "da": int64(a.ID), "amt": pos(d.amount() / 10)})
+			}
 		case 13: // time passes (interest accrues lazily at the next interaction; V2 liquidation sweep runs in BeginBlock)
 			dt := []int64{0, 6, 6, 3600, 86400, 86400, 2592000, 15552000, 31557600}[rng.Intn(9)]
 			if r := d.do("Tick", M{"dt": dt}); getb(r, "panic") {
